@@ -19,6 +19,31 @@ Theorem C12_search_none :
 Proof. exact search_none. Qed.
 Print Assumptions C12_search_none.
 
+(* the including file's own directory wins over every -I directory ... *)
+Theorem C12_own_directory_first :
+  forall (A : Type) (files : list (path * A)) cwd paths name a,
+    find_file A files (join cwd name) = Some a ->
+    search A files cwd paths name = Some (join cwd name, a).
+Proof. exact search_own_first. Qed.
+Print Assumptions C12_own_directory_first.
+
+(* ... when it does not hold the file the -I directories decide, in the order given ... *)
+Theorem C12_falls_back_to_include_paths :
+  forall (A : Type) (files : list (path * A)) cwd paths name,
+    find_file A files (join cwd name) = None ->
+    search A files cwd paths name = search_in A files paths name.
+Proof. exact search_falls_back. Qed.
+Print Assumptions C12_falls_back_to_include_paths.
+
+(* ... and whatever is listed behind the first directory that holds the file is irrelevant *)
+Theorem C12_later_directories_irrelevant :
+  forall (A : Type) (files : list (path * A)) before d after after' name a,
+    (forall d', In d' before -> find_file A files (join d' name) = None) ->
+    find_file A files (join d name) = Some a ->
+    search_in A files (before ++ d :: after) name = search_in A files (before ++ d :: after') name.
+Proof. exact search_ignores_later. Qed.
+Print Assumptions C12_later_directories_irrelevant.
+
 (* non-vacuity: the same name in the including file's directory and in two -I directories *)
 Example C12_example :
   let f (n : N) := [n] in
